@@ -108,7 +108,7 @@ def gen_big(rng, cid):
     the scan free 0, 1, < 1/4, >= 1/4 of the array; the guards are held by another thread which keeps working
     while the scans run."""
     nret = rng.choice([255, 256, 257, 513, 300])
-    keep = rng.choice([0, 1, 150, 193, 250, 255, 256])       # guarded objects among the first 256 retired
+    keep = rng.choice([0, 1, 150, 191, 192, 193, 250, 255, 256])       # guarded objects among the first 256 retired
     o = Objs()
     a = o.fresh(nret)
     H = rng.choice([4, 16])
